@@ -5,12 +5,12 @@ package main
 
 import (
 	"fmt"
-	"os"
 	"go/ast"
 	"go/constant"
 	"go/token"
 	"go/types"
 	"math/big"
+	"os"
 	"sort"
 	"strings"
 
@@ -33,7 +33,7 @@ type Obligation struct {
 	Ms      int64
 	Output  string
 	Bounded bool
-	Alts    []*Term // alternative (stronger) goals: the obligation holds if any of them is proved
+	Alts    []*Term           // alternative (stronger) goals: the obligation holds if any of them is proved
 	GVKeys  map[string]string // solver-reported symbol -> input name
 }
 
@@ -65,45 +65,52 @@ type retInfo struct {
 }
 
 type FnExec struct {
-	eng        *Engine
-	c          *Ctx
-	assumes    []*Term
-	obls       []*Obligation
-	counters   map[string]int
-	notes      map[string]bool // unchecked assumptions met while executing
-	dropped    map[string]bool // constructs abstracted
-	famSort    map[string]*Sort
-	freshRefs  []*Term
-	nilable    map[*Term]bool
-	condDefers bool
-	opts       ExecOpts
-	inputs     []namedTerm // symbolic inputs of interest for models
-	callSeq    int
-	private    map[*Term]privInfo
-	closures   map[*Term]*ssa.MakeClosure
-	deferArgs  map[*ssa.Defer][]Val
-	deferFn    map[*ssa.Defer]Val
-	usedContracts map[string]*FuncContract
-	inlined    map[string]bool
-	strDecl    map[string]bool
-	specDone   map[string]bool
-	bounded    []string
+	eng              *Engine
+	c                *Ctx
+	assumes          []*Term
+	obls             []*Obligation
+	counters         map[string]int
+	notes            map[string]bool // unchecked assumptions met while executing
+	dropped          map[string]bool // constructs abstracted
+	famSort          map[string]*Sort
+	freshRefs        []*Term
+	nilable          map[*Term]bool
+	condDefers       bool
+	opts             ExecOpts
+	inputs           []namedTerm // symbolic inputs of interest for models
+	callSeq          int
+	private          map[*Term]privInfo
+	closures         map[*Term]*ssa.MakeClosure
+	deferArgs        map[*ssa.Defer][]Val
+	deferFn          map[*ssa.Defer]Val
+	usedContracts    map[string]*FuncContract
+	inlined          map[string]bool
+	strDecl          map[string]bool
+	specDone         map[string]bool
+	bounded          []string
 	unannotatedLoops int
-	mapWrites  []mapWrite
-	epoch      int
-	pureMode   bool
-	subSeen    map[*Term]bool
-	symSeen    map[string]bool
-	rangeMaps  map[*Term]rangeMap
-	atomicLocks bool
-	epochSerial map[int]int // allocation serial at the time each heap epoch began
-	famAxiom    map[string]bool
-	streqCache  map[[6]int]*Term
-	noAssume    bool // suppress assumption generation (while describing inputs for models)
-	pendingAxiom map[string]pendingFam
-	noOpenInv   bool // do not instantiate representation invariants for values read under quantifiers
-	rngs        []rngRec
-	rngSeen     map[*Term]bool
+	mapWrites        []mapWrite
+	epoch            int
+	pureMode         bool
+	subSeen          map[*Term]bool
+	symSeen          map[string]bool
+	rangeMaps        map[*Term]rangeMap
+	atomicLocks      bool
+	epochSerial      map[int]int // allocation serial at the time each heap epoch began
+	famAxiom         map[string]bool
+	streqCache       map[[6]int]*Term
+	noAssume         bool // suppress assumption generation (while describing inputs for models)
+	pendingAxiom     map[string]pendingFam
+	noOpenInv        bool // do not instantiate representation invariants for values read under quantifiers
+	rngs             []rngRec
+	alenSeen         map[*Term]bool
+	pendingFresh     []*Term
+	capTypes         map[string]CVal
+	curPC            *Term // path condition of the state being executed (for side queries)
+	sideCache        map[[2]int]bool
+	sideMemo         map[*Term]bool
+	sideQueries      int
+	rngSeen          map[*Term]bool
 }
 
 type rangeMap struct {
@@ -177,18 +184,18 @@ func isSafetyKind(k string) bool {
 // ---- CFG analysis
 
 type loopInfo struct {
-	head     *ssa.BasicBlock
-	ordinal  int // 1-based, source order
-	body     map[*ssa.BasicBlock]bool
-	node     ast.Node // *ast.ForStmt or *ast.RangeStmt
-	modAlloc map[*ssa.Alloc]bool
-	modFam   map[string]bool // heap family prefixes stored to ("*" = everything)
-	modObj   map[*ssa.Alloc]bool // object allocs (declared outside the loop) written in the loop
-	modGhost map[string]bool
-	modTrace map[string]bool // traced callees called inside the loop
-	calls    bool
+	head      *ssa.BasicBlock
+	ordinal   int // 1-based, source order
+	body      map[*ssa.BasicBlock]bool
+	node      ast.Node // *ast.ForStmt or *ast.RangeStmt
+	modAlloc  map[*ssa.Alloc]bool
+	modFam    map[string]bool     // heap family prefixes stored to ("*" = everything)
+	modObj    map[*ssa.Alloc]bool // object allocs (declared outside the loop) written in the loop
+	modGhost  map[string]bool
+	modTrace  map[string]bool // traced callees called inside the loop
+	calls     bool
 	headState *State
-	variant  CVal
+	variant   CVal
 	backEdges int
 }
 
@@ -1128,6 +1135,7 @@ func (fx *FnExec) makeSlice(fr *frame, st *State, x *ssa.MakeSlice) Val {
 		fx.oblige(fr, st, "alloc", x.Pos(), c.BVCmp("bvsle", cp, fx.bv64(fx.opts.AllocBound)), fmt.Sprintf("allocation bounded by %d elements", fx.opts.AllocBound))
 	}
 	r := fx.newRef("make")
+	fx.assumeGlobal(c.Eq(c.App("alen", BV(64), r), cp))
 	fx.zeroBacking(st, et, r)
 	fx.private[r] = privInfo{t: et, backing: true}
 	return SliceV{r, fx.bv64(0), ln, cp}
@@ -1511,6 +1519,7 @@ func (fx *FnExec) convert(fr *frame, st *State, x *ssa.Convert) Val {
 				arr := c.Fresh("conv.bytes", byteArr)
 				fx.setElemArray(st, sl.Elem(), r, arr)
 				fx.assumeCopy(arr, fx.bv64(0), s.Arr, s.Off, s.Len)
+				fx.assumeGlobal(c.Eq(fx.rngTerm(arr, fx.bv64(0), s.Len), fx.rngTerm(s.Arr, s.Off, s.Len)))
 				return res
 			}
 			fx.drop("string to []rune conversion (contents unconstrained)")
